@@ -113,14 +113,44 @@ pub fn present(t: &[char], style: u8, ci: usize, oneline: bool, flow: bool, topl
             // a blank after the fold is possible in double quotes if it is then written as an escape
             let next_ok = nonblank(next) || (style == 2 && next.map_or(false, blank));
             let foldable = !oneline && prev_ok && next_ok && !(style == 0 && next == Some('#'));
-            let fold = if style == 2 {
-                foldable && ch.pick(2) == 1
+            // double-quoted: the run may also be written as an escaped line break followed by k
+            // empty lines (after "\<break>" every empty line denotes one line feed; the leading
+            // blanks of the continuation line are dropped, so a blank that follows must be escaped)
+            let esc_break_ok = style == 2 && !oneline && i > 0 && next.is_some();
+            let mut fold = false;
+            let mut esc_break = false;
+            if style == 2 {
+                let mut opts = vec![0u8];
+                if foldable {
+                    opts.push(1);
+                }
+                if esc_break_ok {
+                    opts.push(2);
+                }
+                match opts[ch.pick(opts.len())] {
+                    1 => fold = true,
+                    2 => esc_break = true,
+                    _ => {}
+                }
             } else {
                 if !foldable {
                     return None;
                 }
-                true
-            };
+                fold = true;
+            }
+            if esc_break {
+                o.push('\\');
+                for _ in 0..k + 1 {
+                    o.push('\n');
+                }
+                for _ in 0..ci + ch.pick(2) {
+                    o.push(' ');
+                }
+                force_escape = next.map_or(false, blank);
+                prev_escaped = false;
+                i += k;
+                continue;
+            }
             if fold {
                 if ch.pick(2) == 1 {
                     o.push_str("  "); // trailing blanks before a fold are dropped
